@@ -5,7 +5,7 @@
     * `…Meaningful`  the set of meaningful requests, written independently of the code in the
                       simplest mathematical form (a `Prop`);
     * `…Guard`        the `if(cond){ std::cerr << …; std::exit(EXIT_FAILURE); }` tests the C++
-                      performs NOW (after the fix commits 9df8ec7, 090357b, 2a3ba6f, 7658ded),
+                      performs NOW (after the fix commits 9df8ec7, 090357b, 2a3ba6f, 7658ded, 8302e13, 710b478, d39b5c1),
                       in the order in which it performs them: `stop` = diagnostic + exit,
                       `pass` = the call goes on and returns;
     * `…Reads`        (index-carrying entry points) every element access the C++ performs once
@@ -305,10 +305,14 @@ def interp2EvalReads (Nx Ny i j : Nat) : List (Option Rat) :=
 
 abbrev findRootMeaningful (fl fr : Option Rat) : Prop :=
   ∃ a b, fl = some a ∧ fr = some b ∧ (a = 0 ∨ b = 0 ∨ (a < 0 ∧ 0 < b) ∨ (0 < a ∧ b < 0))
+/-- as coded after fix 8302e13: `else if(fLeft == 0.0 || fRight == 0.0 || Sign(fLeft) == Sign(fRight))`
+    (the signs are compared, not the product, which can underflow) -/
 def findRootGuard (fl fr : Option Rat) : G :=
   match fl, fr with
   | some a, some b =>
-    if a * b ≥ 0 then (if a = 0 then pass else if b = 0 then pass else stop) else pass
+    if a = 0 ∨ b = 0 ∨ Interp.sign1 a = Interp.sign1 b then
+      (if a = 0 then pass else if b = 0 then pass else stop)
+    else pass
   | _, _ => stop
 
 /-! ## 5. Integration (src/Integration.cpp): method names, Gauss–Legendre sizes -/
@@ -317,10 +321,12 @@ def methods1D : List String :=
   ["Trapezoidal", "Gauss-Legendre", "Gauss-Kronrod", "Tanh-Sinh", "Gauss-Legendre_2", "Adaptive-Simpson"]
 def methodsMC : List String := ["Monte-Carlo", "Vegas", "Miser"]
 
-/-- `Integrate(func,a,b,method,…)`: `if(a == b) return 0.0;` comes BEFORE the dispatch -/
+/-- `Integrate(func,a,b,method,…)` after fix d39b5c1: `if(a == b && known_method) return 0.0;`, then the dispatch -/
 abbrev integrate1Meaningful (method : String) : Prop := method ∈ methods1D
 def integrate1Guard (a b : Rat) (method : String) : G :=
-  if a = b then pass
+  let known := method = "Trapezoidal" ∨ method = "Gauss-Legendre" ∨ method = "Gauss-Kronrod" ∨ method = "Tanh-Sinh"
+    ∨ method = "Gauss-Legendre_2" ∨ method = "Adaptive-Simpson"
+  if a = b ∧ known then pass
   else if method = "Trapezoidal" then pass
   else if method = "Gauss-Legendre" then pass
   else if method = "Gauss-Kronrod" then pass
@@ -365,9 +371,9 @@ def gammaQGuard (x a : Rat) : G := if x < 0 ∨ a ≤ 0 then stop else pass
 abbrev invGammaPMeaningful (a : Rat) : Prop := 0 < a
 def invGammaPGuard (a : Rat) : G := if a ≤ 0 then stop else pass
 
-/-- `Round(N, digits)`: `if(N == 0) return 0;` comes BEFORE `if(digits > 7)` -/
+/-- `Round(N, digits)` after fix 710b478: `if(digits > 7)` stops first, then `if(N == 0) return 0;` -/
 abbrev roundMeaningful (digits : Nat) : Prop := digits ≤ 7
-def roundGuard (N : Rat) (digits : Nat) : G := if N = 0 then pass else if digits > 7 then stop else pass
+def roundGuard (N : Rat) (digits : Nat) : G := if digits > 7 then stop else if N = 0 then pass else pass
 
 /-- `VSH_Y_Component`, `VSH_Psi_Component`: `switch(component)` with cases 0, 1, 2 -/
 abbrev vshMeaningful (component : Int) : Prop := component = 0 ∨ component = 1 ∨ component = 2
